@@ -231,6 +231,9 @@ TCancel ==
           /\ Judge({
                <<"C17_exact", S(Ev.reqs) = CancelRequests(sel) /\ Len(Ev.reqs) = Cardinality(S(Ev.reqs)),
                               \E j \in CancelRequests(sel) : LiveJob(j)>>,
+               (* a live job shown with a code gwf cannot classify is still the target's most recent job *)
+               <<"C17_stuck_job_cancelled", {j \in CancelRequests(sel) : jobs[j].st = "E"} \subseteq S(Ev.reqs),
+                              \E j \in CancelRequests(sel) : jobs[j].st = "E">>,
                <<"C17_continue_after_failure", CancelRequests(sel) \subseteq S(Ev.reqs),
                               S(Ev.refused) # {} /\ Cardinality(CancelRequests(sel)) > 1>>,
                <<"C17_reported", S(Ev.reported) = {t \in CancelTargets(sel) : trk[t] = NoJob \/ trk[t] \in S(Ev.refused)}>>,
@@ -251,11 +254,13 @@ TEnv ==
           /\ Judge({})
 
 TSched ==
-  /\ Ev.act \in {"JobStart", "JobEnd", "Purge", "JobInherit"} /\ dr' = dr
+  /\ Ev.act \in {"JobStart", "JobEnd", "Purge", "JobInherit", "JobStick", "JobUnstick"} /\ dr' = dr
   /\ IF Ev.j \notin JobIds THEN Stuck("C00_schedule_inapplicable")
      ELSE \/ Ev.act = "JobStart" /\ IF CanStart(Ev.j) THEN JobStart(Ev.j) /\ Judge({}) ELSE Stuck("C00_schedule_inapplicable")
           \/ Ev.act = "JobEnd" /\ IF jobs[Ev.j].st = "R" THEN JobEnd(Ev.j, Ev.ok, Ev.tie) /\ Judge({}) ELSE Stuck("C00_schedule_inapplicable")
           \/ Ev.act = "Purge" /\ IF Finished(Ev.j) /\ ~jobs[Ev.j].gone THEN Purge(Ev.j) /\ Judge({}) ELSE Stuck("C00_schedule_inapplicable")
+          \/ Ev.act = "JobStick" /\ IF jobs[Ev.j].st = "PD" /\ ~jobs[Ev.j].gone THEN JobStick(Ev.j) /\ Judge({}) ELSE Stuck("C00_schedule_inapplicable")
+          \/ Ev.act = "JobUnstick" /\ IF jobs[Ev.j].st = "E" THEN JobUnstick(Ev.j) /\ Judge({}) ELSE Stuck("C00_schedule_inapplicable")
           (* observed in the real pool: a held task ended without running; legal only as JobInherit *)
           \/ Ev.act = "JobInherit" /\ IF ENABLED JobInherit(Ev.j) /\ (\E k \in jobs[Ev.j].hold : jobs[k].st = Ev.st)
                                       THEN JobInherit(Ev.j) /\ jobs'[Ev.j].st = Ev.st /\ Judge({})
